@@ -149,6 +149,10 @@ def apply_layout(a, kind, fill=None):
         c = a.copy()
         c.setflags(write=False)
         return c
+    if kind == "swapped":
+        # same values, elements stored in the non-native byte order (what a big-endian file reader hands over); one-byte types
+        # have no byte order and stay as they are
+        return a.astype(a.dtype.newbyteorder("S"))
     raise ValueError(kind)
 
 
